@@ -89,7 +89,7 @@ type rules struct {
 
 func rulesSpec(prop string) func(tier, scenario string) seqx.Spec {
 	return func(tier, scenario string) seqx.Spec {
-		depth, maxLive, maxFault := 5, 2, 1
+		depth, maxLive, maxFault := 4, 2, 1 // C01: counted from the state in which both peers are associated
 		dl := 110 * time.Second
 		switch prop {
 		case "C05":
@@ -120,12 +120,12 @@ func rulesSpec(prop string) func(tier, scenario string) seqx.Spec {
 					}
 					r.mods = m
 				}
-				if prop == "C05" {
+				if prop == "C05" || prop == "C01" {
 					// start from the state in which A and B are associated (not counted in the depth): every
-					// isolation scenario needs both, and re-association stays in the alphabet
+					// isolation / rule-lifetime scenario of interest needs both, and re-association stays in the alphabet
 					for p := 0; p < 2; p++ {
 						if res := r.Apply(seqx.Ev("Assoc", int64(p), int64(p))); len(res.Viols) > 0 {
-							evid.Infra("C05 prefix: %v", res.Viols)
+							evid.Infra("%s prefix: %v", prop, res.Viols)
 						}
 					}
 				}
@@ -786,7 +786,7 @@ func runRules(prop, tier, bound string, assumptions ...string) {
 }
 
 func RunC01(tier string) {
-	runRules("C01", tier, "2 peers, <=2 (thorough 3) live sessions, single-IE modifications over every verb x kind for a created and a never-created id, data-plane faults armed at every offset 0..3 (thorough 0..7) before/after effect, <=1 (thorough 2) faults per history, all histories to depth %d (completed %d)")
+	runRules("C01", tier, "2 peers, <=2 (thorough 3) live sessions, single-IE modifications over every verb x kind for a created and a never-created id, data-plane faults armed at every offset 0..3 (thorough 0..7) before/after effect, <=1 (thorough 2) faults per history; start state: both peers associated; all histories to depth %d from there (completed %d)")
 }
 
 func RunC05(tier string) {
